@@ -9,6 +9,7 @@ import (
 
 	"github.com/tetratelabs/wazero"
 	"github.com/tetratelabs/wazero/api"
+	"github.com/tetratelabs/wazero/experimental"
 	"github.com/tetratelabs/wazero/verif/wb"
 )
 
@@ -22,13 +23,17 @@ type batch struct {
 	layout *layoutT
 	rots   []int // rotations run in this batch
 	lm     int   // listener mode
+	forms  int   // call-form batch (forms.go): 0 no, 1 representative styles, 2 all styles
 }
 
-func newBatch(sigs []*sigT, li int, rots []int, lm int) *batch {
-	b := &batch{sigs: sigs, li: li, layout: &layouts[li], rots: rots, lm: lm}
+func newBatch(sigs []*sigT, li int, rots []int, lm int, forms int) *batch {
+	b := &batch{sigs: sigs, li: li, layout: &layouts[li], rots: rots, lm: lm, forms: forms}
 	for _, s := range sigs {
 		var plain *unit
 		for _, st := range stylesFor(s) {
+			if forms != 0 && !formStyle(st, forms) {
+				continue
+			}
 			u := &unit{idx: len(b.units), sig: s, st: st}
 			if st.Kind == kGoFunc {
 				plain = u
@@ -37,7 +42,11 @@ func newBatch(sigs []*sigT, li int, rots []int, lm int) *batch {
 			b.units = append(b.units, u)
 		}
 	}
-	b.bin = b.guestModule()
+	if forms != 0 {
+		b.bin = b.formsModule()
+	} else {
+		b.bin = b.guestModule()
+	}
 	return b
 }
 
@@ -132,6 +141,7 @@ type replayT struct {
 	Depth  int          `json:"depth"`
 	Layout string       `json:"layout,omitempty"`
 	Lis    int          `json:"listeners,omitempty"`
+	Forms  int          `json:"forms,omitempty"`
 	Multi  *multiReplay `json:"multi,omitempty"`
 }
 
@@ -151,7 +161,7 @@ func (r *runner) viol(w *world, u *unit, dir string, k int, sig, what string) {
 	if len(r.res.Viols) >= 24 {
 		return
 	}
-	rp := replayT{Engine: w.eng, Style: u.st, Dir: dir, K: k, Depth: r.depth, Layout: w.b.layout.Name, Lis: w.b.lm}
+	rp := replayT{Engine: w.eng, Style: u.st, Dir: dir, K: k, Depth: r.depth, Layout: w.b.layout.Name, Lis: w.b.lm, Forms: w.b.forms}
 	for _, t := range u.sig.P {
 		rp.P = append(rp.P, tname(t))
 	}
@@ -344,6 +354,10 @@ func (u *unit) deep() bool {
 
 // runUnit executes every direction and rotation of one unit on one engine.
 func (r *runner) runUnit(w *world, u *unit) {
+	if w.b.forms != 0 {
+		r.runForms(w, u)
+		return
+	}
 	for _, k := range w.b.rots {
 		if r.only != nil && r.only.K != k {
 			continue
@@ -662,6 +676,11 @@ func rtConfig(eng string) wazero.RuntimeConfig {
 	return wazero.NewRuntimeConfigInterpreter()
 }
 
+// rtConfigTail: the same with the experimental tail-call feature enabled (call-form batches).
+func rtConfigTail(eng string) wazero.RuntimeConfig {
+	return rtConfig(eng).WithCoreFeatures(api.CoreFeaturesV2 | experimental.CoreFeaturesTailCall)
+}
+
 // runBatch instantiates the batch on every engine and runs all of its units.
 func (r *runner) runBatch(b *batch) {
 	ctx := context.Background()
@@ -673,7 +692,11 @@ func (r *runner) runBatch(b *batch) {
 		}
 		ran++
 		w := &world{eng: eng, b: b, ctx: ctx, fns: map[string]api.Function{}}
-		w.rt = wazero.NewRuntimeWithConfig(ctx, rtConfig(eng))
+		if b.forms != 0 {
+			w.rt = wazero.NewRuntimeWithConfig(ctx, rtConfigTail(eng))
+		} else {
+			w.rt = wazero.NewRuntimeWithConfig(ctx, rtConfig(eng))
+		}
 		hbs := map[string]wazero.HostModuleBuilder{}
 		var hnames []string
 		for _, u := range b.units {
@@ -718,7 +741,11 @@ func (r *runner) runBatch(b *batch) {
 			r.runUnit(w, u)
 			r.res.Units++
 		}
-		r.res.Funcs += b.guestFuncCount()
+		if b.forms != 0 {
+			r.res.Funcs += b.formsFuncCount()
+		} else {
+			r.res.Funcs += b.guestFuncCount()
+		}
 		w.rt.Close(ctx)
 	}
 	if len(rejected) > 0 {
